@@ -169,7 +169,9 @@ Record target := mkT {
   t_var : var;
   t_key : option bytes;      (* ARGS:a *)
   t_excl : list bytes;       (* ARGS|!ARGS:b *)
-  t_count : bool }.          (* &ARGS *)
+  t_count : bool;            (* &ARGS *)
+  t_rx : option bytes }.     (* ARGS:/^pfx/ - regex key; modelled fragment: "^" + literal, applied (as the code
+                                does) to the LOWER-CASED stored key; takes precedence over t_key *)
 
 Inductive op :=
   | OAny                     (* @unconditionalMatch *)
@@ -239,7 +241,13 @@ Definition is_single_var (v : var) : bool :=
 
 Definition key_is (k : bytes) (e : entry) : bool := bytes_eqb (lower_ascii (e_key e)) (lower_ascii k).
 
+Definition rx_key_is (p : bytes) (e : entry) : bool := is_prefix p (lower_ascii (e_key e)).
+
 Definition find (t : target) (rq : request) (post : bool) (s : st) : list entry :=
+  match t_rx t with
+  | Some p =>   (* FindRegex: every bucket whose (lower-cased) map key matches, all its entries *)
+    if is_single_var (t_var t) then [] else filter (rx_key_is p) (coll_all (t_var t) rq post s)
+  | None =>
   match t_key t with
   | None => coll_all (t_var t) rq post s
   | Some k =>
@@ -251,6 +259,7 @@ Definition find (t : target) (rq : request) (post : bool) (s : st) : list entry 
                   end
          | _ => filter (key_is k) (coll_all (t_var t) rq post s)
          end
+  end
   end.
 
 Definition excluded (ex : list bytes) (e : entry) : bool := existsb (fun k => key_is k e) ex.
@@ -433,9 +442,12 @@ Definition perm_oracle (ord : ord_t) : Prop := forall n l, Permutation (ord n l)
 Definition multi_target (t : target) : bool :=
   if t_count t then false
   else if is_single_var (t_var t) then false
-  else match t_var t, t_key t with
-       | VTx, Some _ => false
-       | _, _ => true
+  else match t_rx t with
+       | Some _ => true
+       | None => match t_var t, t_key t with
+                 | VTx, Some _ => false
+                 | _, _ => true
+                 end
        end.
 
 Definition multi_link (lk : link) : bool := existsb multi_target (l_targets lk).
@@ -444,10 +456,12 @@ Definition reads_mv_target (t : target) : bool :=
   match t_var t with VMatchedVar | VMatchedVarName => true | _ => false end.
 
 Definition reads_cap_target (t : target) : bool :=
-  match t_var t, t_key t with
-  | VTx, None => true
-  | VTx, Some k => is_cap_key (lower_ascii k)
-  | _, _ => false
+  match t_var t with
+  | VTx => match t_rx t with
+           | Some _ => true
+           | None => match t_key t with None => true | Some k => is_cap_key (lower_ascii k) end
+           end
+  | _ => false
   end.
 
 Definition part_reads_mv (p : mpart) : bool :=
